@@ -164,6 +164,16 @@ def straddles_phantom(s1, s2):
     return (s1 >= 61) != (s2 >= 61)
 
 
+def serial_difference(s_start, s_end):
+    """DAYS / subtraction of dates: in the 1900 system a date IS its serial,
+    so the difference of two dates is the difference of their serials - also
+    across the phantom day (1900-03-01 minus 1900-02-28 is 61 - 59 = 2, as in
+    Excel).  Only the phantom day itself is not judged."""
+    if s_start == PHANTOM or s_end == PHANTOM:
+        raise Unjudged('phantom-day')
+    return s_end - s_start
+
+
 def days_between(s_start, s_end):
     if s_start == PHANTOM or s_end == PHANTOM:
         raise Unjudged('phantom-day')
@@ -226,9 +236,12 @@ def yearfrac(s1, s2, basis):
     if basis in (0, 4):
         if d1 > 28 or d2 > 28:
             raise Unjudged('30-360-day-of-month-29-31')
-        if (m1 == 2 and d1 == days_in_month(y1, 2)) or \
-                (m2 == 2 and d2 == days_in_month(y2, 2)):
-            raise Unjudged('30-360-last-day-of-february')
+        if basis == 0 and (
+                (m1 == 2 and d1 == days_in_month(y1, 2)) or
+                (m2 == 2 and d2 == days_in_month(y2, 2))):
+            # the US convention turns the last day of February into the
+            # 30th; the European one (basis 4) knows no such rule: 28 is 28
+            raise Unjudged('30-360-us-last-day-of-february')
         return (360 * (y2 - y1) + 30 * (m2 - m1) + (d2 - d1)) / 360, 0.0
     if basis == 1:
         if y1 == 1900:
@@ -383,7 +396,7 @@ def selftest():
     assert abs(yearfrac(s(D(2001, 1, 1)), s(D(2004, 1, 1)), 1)[0]
                - 1095 / 365.25) < 1e-12
     for bad in ((s(D(2020, 1, 30)), s(D(2020, 3, 1)), 0),
-                (s(D(2019, 2, 28)), s(D(2019, 3, 1)), 4),
+                (s(D(2019, 2, 28)), s(D(2019, 3, 1)), 0),
                 (59, 61, 2)):
         try:
             yearfrac(*bad)
@@ -391,6 +404,10 @@ def selftest():
             pass
         else:
             raise AssertionError(bad)
+    # European 30/360 has no end-of-February rule
+    assert yearfrac(s(D(2019, 2, 28)), s(D(2019, 3, 28)), 4)[0] == 30 / 360
+    assert yearfrac(s(D(2019, 2, 28)), s(D(2020, 2, 28)), 4)[0] == 1.0
+    assert serial_difference(59, 61) == 2
     return True
 
 
